@@ -1,5 +1,6 @@
 import Blots.Lemmas.EvalEnvCall
 import Blots.Lemmas.EvalEnvWeak
+import Blots.Lemmas.EvalWeakClosed
 /-
   C02 — Evaluation is deterministic and free of side effects on values.
 
@@ -16,7 +17,10 @@ import Blots.Lemmas.EvalEnvWeak
       unchanged — `random(seed)` included;
   (4) weakening (the easy half of the let-abstraction law): binding an unused fresh name
       does not change evaluation — proved for expressions without function application
-      (`weakening_partial`), full statement kept as `weakening_statement`.
+      (`weakening_partial`), and for ARBITRARY expressions (function application included:
+      call expressions, `via` / `into` / `where`, the higher-order built-ins) evaluated in an
+      environment of hereditarily closed values (`weakening_closed`); full statement kept as
+      `weakening_statement`.
 -/
 namespace Blots.C02
 
@@ -208,6 +212,139 @@ theorem weakening_partial_lists (ops : NumOps) (fuel depth : Nat) (k : Nat) (s :
    fun es acc hm hc => (weak_group ops t w ht fuel).2.2.1 depth es acc k s hm hc hk,
    fun stmts ret h1 h2 h3 h4 => (weak_group ops t w ht fuel).2.2.2.2 depth stmts ret k s h1 h2 h3 h4 hk⟩
 
+/-! #### (4b) weakening through function application, in closed environments -/
+
+/-- WEAKENING FOR ARBITRARY EXPRESSIONS.  `ClosedE N E` (Lemmas/EvalEnvClosed.lean): every
+    function value bound anywhere in the environment — also inside lists, records, captured
+    scopes — is closed after capture (each free name of its body is a parameter, captured, its
+    own display name, or `inputs`), has no nested `output`, and captured only such values.  The
+    value of `inputs` is one of the bound values.
+
+    Then for every expression `e` (no nested `output`) that does not mention `t` and whose free
+    names are bound (or `inputs`), at every fuel and call depth (0 = a top-level statement
+    included), with the extra binding `(t, w)` put in front of ANY frame `k` of the chain:
+    same outcome, and the same final state with the same extra binding.  NOTHING is assumed of
+    the new value `w` (it may be a non-closed function value) and nothing of how the functions
+    reachable from the environment spell their own parameters and locals: they may well use the
+    name `t` themselves (see the example: the callee's parameter is called `t`).
+    Covers every way `e` can run functions: calling bound / captured / just-created functions,
+    `via` / `into` / `where`, `map` / `filter` / `reduce` / `every` / `some` / `sort_by` /
+    `group_by` / `count_by` with lambda callbacks, nested function creation, assignments,
+    do-blocks.
+
+    Why "free names bound": an unbound free name of a lambda inside `e` is resolved late, in
+    whatever chain the lambda is later called from (C04 `call_site_independent_statement_false`),
+    so the value is not closed; weakening is still expected to hold then, but it is not covered
+    by the closedness invariant.  The one everyday case of an unbound free name, the recursive
+    definition `f = (n) => … f(n - 1) …`, is covered by `weakening_definition` below. -/
+theorem weakening_closed (ops : NumOps) (fuel depth : Nat) (e : Expr) (k : Nat) (s : ES) (t : String)
+    (w : Value) (ht : t ≠ "inputs") (hk : k < s.env.length) (hm : mentions t e = false)
+    (hw : noOutput e = true) (hE : ClosedE s.names s.env)
+    (hfree : ∀ x, FreeIn x e → x = "inputs" ∨ (envGet s.env x).isSome) :
+    eval ops fuel depth e (addT t w k s) =
+      ((eval ops fuel depth e s).1, addT t w k (eval ops fuel depth e s).2) :=
+  ((weak ops w ht fuel).eval depth e s.env.length k s (by omega) ⟨hk, hE⟩ hw hm (fok_of_bound hfree)).1
+
+/-- the same for a whole `output` statement (`output x = e`, `output e`: the only place the
+    grammar puts `output`) -/
+theorem weakening_closed_output (ops : NumOps) (fuel depth : Nat) (e : Expr) (k : Nat) (s : ES) (t : String)
+    (w : Value) (ht : t ≠ "inputs") (hk : k < s.env.length) (hm : mentions t e = false)
+    (hw : noOutput e = true) (hE : ClosedE s.names s.env)
+    (hfree : ∀ x, FreeIn x e → x = "inputs" ∨ (envGet s.env x).isSome) :
+    eval ops fuel depth (.output e) (addT t w k s) =
+      ((eval ops fuel depth (.output e) s).1, addT t w k (eval ops fuel depth (.output e) s).2) := by
+  cases fuel with
+  | zero => simp [eval]
+  | succ fuel =>
+    rw [eval, eval]
+    exact weakening_closed ops fuel depth e k s t w ht hk hm hw hE hfree
+
+/-- and the invariant is kept, so the theorem applies statement after statement: the display
+    names only grow, the final environment is closed w.r.t. them, and so is the value -/
+theorem weakening_closed_keeps_closed (ops : NumOps) (fuel depth : Nat) (e : Expr) (s : ES) (t : String)
+    (ht : t ≠ "inputs") (hne : s.env ≠ []) (hm : mentions t e = false) (hw : noOutput e = true)
+    (hE : ClosedE s.names s.env)
+    (hfree : ∀ x, FreeIn x e → x = "inputs" ∨ (envGet s.env x).isSome) :
+    NamesLe s.names (eval ops fuel depth e s).2.names ∧
+      ClosedE (eval ops fuel depth e s).2.names (eval ops fuel depth e s).2.env ∧
+      ∀ v, (eval ops fuel depth e s).1 = .ok v → ClosedV (eval ops fuel depth e s).2.names v := by
+  have hk : 0 < s.env.length := List.length_pos_iff.mpr hne
+  have h := ((weak ops .null ht fuel).eval depth e s.env.length 0 s hk ⟨hk, hE⟩ hw hm (fok_of_bound hfree)).2
+  exact ⟨h.names, h.cl, h.val⟩
+
+/-- spelled out for the innermost frame (as `weakening_partial_top`) -/
+theorem weakening_closed_top (ops : NumOps) (fuel depth : Nat) (e : Expr) (s : ES) (f : Frame)
+    (r : List Frame) (t : String) (w : Value) (hs : s.env = f :: r) (ht : t ≠ "inputs")
+    (hm : mentions t e = false) (hw : noOutput e = true) (hE : ClosedE s.names s.env)
+    (hfree : ∀ x, FreeIn x e → x = "inputs" ∨ (envGet s.env x).isSome) :
+    ∃ f', (eval ops fuel depth e s).2.env = f' :: r ∧
+      eval ops fuel depth e { s with env := ((t, w) :: f) :: r } =
+        ((eval ops fuel depth e s).1,
+         { (eval ops fuel depth e s).2 with env := ((t, w) :: f') :: r }) := by
+  have h := weakening_closed ops fuel depth e 0 s t w ht (by rw [hs]; simp) hm hw hE hfree
+  have hb := (eval_topExt ops fuel depth e s).below
+  have h0 : addT t w 0 s = { s with env := ((t, w) :: f) :: r } := by simp [addT, hs, addAt]
+  rw [h0] at h
+  rcases hb with he | ⟨f', he⟩
+  · refine ⟨f, by rw [he, hs], ?_⟩
+    rw [h]; simp [addT, he, hs, addAt]
+  · refine ⟨f', by rw [he, hs]; rfl, ?_⟩
+    rw [h]; simp [addT, he, hs, addAt]
+
+/-- the same for argument lists, list items, record entries and the statements of a do-block -/
+theorem weakening_closed_lists (ops : NumOps) (fuel depth : Nat) (k : Nat) (s : ES) (t : String) (w : Value)
+    (ht : t ≠ "inputs") (hk : k < s.env.length) (hE : ClosedE s.names s.env) :
+    (∀ es, mentionsList t es = false → noOutputList es = true →
+      (∀ x, FreeInList x es → x = "inputs" ∨ (envGet s.env x).isSome) →
+      evalList ops fuel depth es (addT t w k s) =
+        ((evalList ops fuel depth es s).1, addT t w k (evalList ops fuel depth es s).2)) ∧
+    (∀ is, mentionsItems t is = false → noOutputItems is = true →
+      (∀ x, FreeInItems x is → x = "inputs" ∨ (envGet s.env x).isSome) →
+      evalItems ops fuel depth is (addT t w k s) =
+        ((evalItems ops fuel depth is s).1, addT t w k (evalItems ops fuel depth is s).2)) ∧
+    (∀ es acc, mentionsEntries t es = false → noOutputEntries es = true → ClosedR s.names acc →
+      (∀ x, FreeInEntries x es → x = "inputs" ∨ (envGet s.env x).isSome) →
+      evalEntries ops fuel depth es acc (addT t w k s) =
+        ((evalEntries ops fuel depth es acc s).1, addT t w k (evalEntries ops fuel depth es acc s).2)) ∧
+    (∀ stmts ret, mentionsItems t stmts = false → mentionsItem t ret = false →
+      noOutputItems stmts = true → noOutputItem ret = true →
+      (∀ x, FreeInDo x stmts ret → x = "inputs" ∨ (envGet s.env x).isSome) →
+      evalDo ops fuel depth stmts ret (addT t w k s) =
+        ((evalDo ops fuel depth stmts ret s).1, addT t w k (evalDo ops fuel depth stmts ret s).2)) :=
+  have hn : 0 < s.env.length := by omega
+  ⟨fun es hm hw hf => ((weak ops w ht fuel).evalList depth es _ k s hn ⟨hk, hE⟩ hw hm (fok_of_bound hf)).1,
+   fun is hm hw hf => ((weak ops w ht fuel).evalItems depth is _ k s hn ⟨hk, hE⟩ hw hm (fok_of_bound hf)).1,
+   fun es acc hm hw ha hf =>
+     ((weak ops w ht fuel).evalEntries depth es acc _ k s hn ⟨hk, hE⟩ hw hm (fok_of_bound hf) ha).1,
+   fun stmts ret h1 h2 h3 h4 hf =>
+     ((weak ops w ht fuel).evalDo depth stmts ret _ k s hn ⟨hk, hE⟩ h3 h4 h1 h2 (fok_of_bound hf)).1⟩
+
+/-- calling a closed function value with closed arguments: the caller's extra binding is not seen
+    (the step `weakening_closed` delegates to C04's closed-coincidence invariant) -/
+theorem weakening_call (ops : NumOps) (fuel : Nat) (fv this : Value) (args : List Value) (depth k : Nat)
+    (s : ES) (t : String) (w : Value) (ht : t ≠ "inputs") (hE : ClosedE s.names s.env)
+    (hf : ClosedV s.names fv) (hth : ClosedV s.names this) (ha : ClosedL s.names args) :
+    callFn ops fuel fv this args depth (addT t w k s) =
+      ((callFn ops fuel fv this args depth s).1, addT t w k (callFn ops fuel fv this args depth s).2) :=
+  (callFn_addT ops w ht fuel fv this args depth k s hE hf hth ha).1
+
+/-- the hypothesis "free names bound" can be checked by computation: the free names are the
+    list `freeVars [] e` -/
+theorem free_names_checkable (e : Expr) (P : String → Prop) (hw : noOutput e = true)
+    (hall : ∀ x ∈ freeVars [] e, P x) : ∀ x, FreeIn x e → P x :=
+  fun x hx => hall x ((freeVars_iff e [] x hw).mpr ⟨hx, by simp⟩)
+
+/-- DEFINITIONS `f = (ps) => body` (recursive ones included: `f` itself may be free in `body`
+    and unbound): creating a function evaluates nothing, so no condition on the environment or
+    on the free names is needed, only that `t` is not mentioned -/
+theorem weakening_definition (ops : NumOps) (fuel depth : Nat) (nm : String) (ps : List LArg) (body : Expr)
+    (k : Nat) (s : ES) (t : String) (w : Value) (hk : k < s.env.length)
+    (hm : mentions t (.assign nm (.lambda ps body)) = false) :
+    eval ops fuel depth (.assign nm (.lambda ps body)) (addT t w k s) =
+      ((eval ops fuel depth (.assign nm (.lambda ps body)) s).1,
+       addT t w k (eval ops fuel depth (.assign nm (.lambda ps body)) s).2) :=
+  weak_definition ops w fuel depth nm ps body k s hk hm
+
 /-- the names a function captures are among the names its body mentions, so an unmentioned
     name is never captured (used in the function-creation case) -/
 theorem free_names_are_mentioned (e : Expr) (bound : List String) (x : String)
@@ -238,6 +375,63 @@ example : "z" ≠ "inputs" ∧ 0 < root0.env.length ∧
       (it (.record [.mk [] (.short "u") (.ident "u") none,
                     .mk [] (.static "v") (.lambda [.req "a"] (.ident "a")) none])))) = true := by
   decide
+
+/-! ##### examples for (4b) -/
+
+/-- the environment of the example: `g = (t) => [t, y]` which captured `y ↦ 1` (C04's closed
+    example function; NOTE its parameter is called `t`), and `a ↦ "arg"` -/
+def exS : ES := { env := [[("g", C04Ex.exG), ("a", .str "arg")]], nextId := 3, names := [] }
+
+/-- `[g(a), map([a], (x) => g(x))]`: calls a captured closure, and the higher-order built-in
+    `map` with a lambda callback that calls the closure again -/
+def exE : Expr :=
+  .list [it (.call (.ident "g") [.ident "a"]),
+         it (.call (.builtin "map") [.list [it (.ident "a")],
+               .lambda [.req "x"] (.call (.ident "g") [.ident "x"])])]
+
+/-- hypotheses of `weakening_closed` for the fresh name `t` (the callee's own parameter name) -/
+example : "t" ≠ "inputs" ∧ 0 < exS.env.length ∧ mentions "t" exE = false ∧ noOutput exE = true ∧
+    ClosedE exS.names exS.env ∧ (∀ x, FreeIn x exE → x = "inputs" ∨ (envGet exS.env x).isSome) := by
+  refine ⟨by decide, by decide, by decide, by decide, ?_, free_names_checkable exE _ (by decide) (by decide)⟩
+  intro f hf
+  simp only [exS, List.mem_singleton] at hf
+  subst hf
+  simp [ClosedR, exS, C04Ex.exG_closed]
+
+/-- and the conclusion, computed on both sides: with `t ↦ false` added to the frame the result
+    is still `[["arg", 1], [["arg", 1]]]` — inside `g` the name `t` is the parameter -/
+example :
+    (eval toyOps 20 0 exE exS).1 =
+      .ok (.list [.list [.str "arg", .num F64.one], .list [.list [.str "arg", .num F64.one]]]) ∧
+    (eval toyOps 20 0 exE (addT "t" (.bool false) 0 exS)).1 =
+      .ok (.list [.list [.str "arg", .num F64.one], .list [.list [.str "arg", .num F64.one]]]) := by
+  constructor <;>
+  simp +decide [exE, exS, addT, addAt, C04Ex.exG, callFn, callHof, mapCalls, eval, evalItems, evalList, it,
+    checkArity, lambdaArity, Gen.Arity.canAccept, MAX_DEPTH, nameOf, bindParams, bindParams.go, envGet,
+    lookupAL, insertAL, flattenSpreads, Value.isCallable, C04Ex.map_arity, isHof, arityOf, freeVars,
+    freeVarsList, captureScope, LArg.name]
+
+/-- the theorem applied to it (all hypotheses discharged) -/
+example : eval toyOps 20 0 exE (addT "t" (.bool false) 0 exS) =
+    ((eval toyOps 20 0 exE exS).1, addT "t" (.bool false) 0 (eval toyOps 20 0 exE exS).2) :=
+  weakening_closed toyOps 20 0 exE 0 exS "t" (.bool false) (by decide) (by decide) (by decide) (by decide)
+    (by intro f hf
+        simp only [exS, List.mem_singleton] at hf
+        subst hf
+        simp [ClosedR, exS, C04Ex.exG_closed])
+    (free_names_checkable exE _ (by decide) (by decide))
+
+/-- "free names bound" is needed for the closedness invariant: `(x) => y` created where `y` is
+    unbound is not a closed value -/
+example : ¬ ClosedV [] (.lambda 1 [.req "x"] (.ident "y") []) := by
+  rw [closedV_lambda]
+  intro h
+  have := h.1 "y" (.ident (by decide))
+  simp +decide [lookupAL, nameOf] at this
+
+/-- hypotheses of `weakening_definition`: `f = (n) => f(n)`, fresh name `z` -/
+example : mentions "z" (.assign "f" (.lambda [.req "n"] (.call (.ident "f") [.ident "n"]))) = false ∧
+    0 < root0.env.length := by decide
 
 /-- the condition "not mentioned" matters: binding the name `x` that `e` reads changes the outcome -/
 example : (eval toyOps 2 0 (.ident "x") root0).1 = .err .unknownIdent ∧
